@@ -70,8 +70,11 @@ def model_check(ctx):
             ("mc-warm3", consts(1, 4, topics=("t1",), maxnow=7, warm=3))]
     if ctx.thorough:
         plan = [("mc-ps1", consts(1, 6, ids=("m1", "m2"), maxref=3, maxnow=4)),
-                ("mc-ps2-rich", consts(2, 5, ids=("m1", "m2"), maxref=3, maxnow=4, rich=True, ipsets="SomeIPs")),
-                ("mc-ps3-rich", consts(3, 5, ids=("m1", "m2"), maxref=3, maxnow=5, rich=True, ipsets="SomeIPs")),
+                # (rich alphabet: ~35 one-aspect parameter updates per topic, two per history; one event shorter than the core runs)
+                ("mc-ps2-rich", consts(2, 4, ids=("m1", "m2"), maxref=3, maxnow=4, rich=True, ipsets="SomeIPs")),
+                ("mc-ps3-rich", consts(3, 4, ids=("m1", "m2"), maxref=3, maxnow=5, rich=True, ipsets="SomeIPs")),
+                ("mc-warm2-rich", consts(1, 3, topics=("t1",), maxnow=7, warm=2, rich=True)),
+                ("mc-warm4-rich", consts(1, 3, topics=("t1",), maxnow=7, warm=4, rich=True)),
                 ("mc-ps4", consts(4, 5, ids=("m1", "m2"), maxref=3, maxnow=4)),
                 ("mc-warm1", consts(1, 4, topics=("t1",), maxnow=7, warm=1)),
                 ("mc-warm2", consts(1, 4, topics=("t1",), maxnow=7, warm=2)),
